@@ -359,8 +359,10 @@ def _runner_main() -> None:
                                 "X" + reason.type.__name__)
                         sc.emit(side, "L" + code)
                         sc.nlost[side] += 1
-                        sc.fire(side, "lost")
-                        sc.check_end()
+                        try:
+                            sc.fire(side, "lost")
+                        finally:
+                            sc.check_end()
 
                     def readConnectionLost(self):
                         sc.emit(side, "R")
@@ -896,7 +898,7 @@ def corpus():
         {"kind": "corpus-abort-then-hup-server", "sndbuf": 0, "rcvbuf": 0, "sl": 0, "bs": 0,
          "A": {"half": False, "rules": [[["at", 10], [["abort"]]]]},
          "B": {"half": False, "rules": [["conn", [["pause"]]], [["at", 40], [["abort"], ["w", 10]]]]},
-         "expect": {"A": ["A"], "B": ["L", "A"], "AB": "exact", "BA": "prefix"}},
+         "expect": {"A": ["A"], "B": ["L", "A"], "AB": "exact", "BA": "prefix", "maybe_unmade": "B"}},
     ]
     base += [
         # loseWriteConnection again after the half-close completed (used to re-register the writer: send on a socket
